@@ -59,7 +59,7 @@ def imaging(
     if voxel_shape == "point":
         voxel = 1.0
     elif voxel_shape == "box":
-        if np.ndim(voxel_size) > 0:
+        if np.ndim(voxel_size) > 0 and np.shape(voxel_size)[-1] > 1:
             # per-axis sizes: one per wavenumber column in use (sinc(0) = 1 for the others)
             voxel_size = xp.asarray(voxel_size, dtype=float)
             ncol = k.shape[-1]
